@@ -15,7 +15,8 @@ from .c03 import to_np
 LEVEL = "exploration"
 RULE = (
     "Structural generator x batch sizes 1..8 x pairwise-distinct rows (every parameter and every datum differs between "
-    "rows) x backend; observables: expected_data, expected_actualdata, by-sample rates, logpdf, mainlogpdf, "
+    "rows) x backend x lower clipping options (40% of the cases: per sample, per bin or both, at zero or at a threshold placed "
+    "among the rates of the rows); observables: expected_data, expected_actualdata, by-sample rates, logpdf, mainlogpdf, "
     "constraint_logpdf, pdf, sampled-data shape. A case = (model, N, rows); non-trivial when N>=2, rows distinct in every "
     "component and the spec has a bin-wise modifier in a channel that is not the first; distinct by (shape signature, N, backend)."
 )
@@ -35,8 +36,7 @@ def check_case(case, shard):
     spec = case["spec"]
     N = case["batch"]
     kw = dict(poi_name="mu", modifier_settings=case["settings"])
-    single = pyhf.Model(copy.deepcopy(spec), **kw)
-    batched = pyhf.Model(copy.deepcopy(spec), batch_size=N, **kw)
+    single = pyhf.Model(copy.deepcopy(spec), **kw)  # (rebuilt below with the clipping options once the rows are known)
     L = Layout(single)
     rng = random.Random(case["seed"])
     flags = c01.alpha_flags(spec, L)
@@ -57,6 +57,27 @@ def check_case(case, shard):
         main = [float(gen.poisson_draw(rng, x)) + 0.25 * r + 0.01 * g for g, x in enumerate(rates)]
         aux = [float(a) * (1 + 0.03 * (r + 1)) + 0.011 * (r + 1) for a in aux0]
         rows_d.append(main + aux)
+    # lower clipping of the rates is a model option: thresholds are placed among the rates the rows really produce, so that
+    # some rows are clipped and others are not
+    mode = case.get("clipmode")
+    if mode:
+        by = to_np(single.main_model.expected_data(tb.astensor(rows_p[0]), return_by_sample=True)).reshape(len(L.samples), L.nmaindata)
+        pick = random.Random(case["seed"] + 1)
+        b = pick.randrange(L.nmaindata)
+        f = case.get("clipfactor", 1.0)
+        if mode in ("sample0", "both0"):
+            kw["clip_sample_data"] = 0.0
+        if mode in ("bin0", "both0"):
+            kw["clip_bin_data"] = 0.0
+        if mode in ("sample+", "both+"):
+            kw["clip_sample_data"] = float(abs(by[pick.randrange(len(L.samples)), b]) * f + 0.01)
+        if mode in ("bin+", "both+"):
+            kw["clip_bin_data"] = float(abs(by[:, b].sum()) * f + 0.01)
+        plain = single
+        single = pyhf.Model(copy.deepcopy(spec), **kw)
+        active = sum(1 for r in range(N) if not np.array_equal(to_np(single.expected_actualdata(tb.astensor(rows_p[r]))), to_np(plain.expected_actualdata(tb.astensor(rows_p[r])))))
+        shard.covered("clipping", f"{mode}: " + ("no row clipped" if active == 0 else ("every row clipped" if active == N else "some rows clipped, some not")))
+    batched = pyhf.Model(copy.deepcopy(spec), batch_size=N, **kw)
     tp, td = tb.astensor(rows_p), tb.astensor(rows_d)
 
     def close(a, b, is_density=False):
@@ -72,7 +93,7 @@ def check_case(case, shard):
         ok = np.abs(a - b) <= r * (np.abs(a) + np.abs(b)) + (1e-300 if case["precision"] == "64b" else 2e-37)
         return bool(np.all(ok | both_bad | (a == b)))
 
-    ctx = f"backend={case['backend']}-{case['precision']} N={N} settings={case['settings']}"
+    ctx = f"backend={case['backend']}-{case['precision']} N={N} settings={case['settings']}" + (f" clip={ {k: v for k, v in kw.items() if k.startswith('clip')} }" if mode else "")
     observables = [
         ("expected_data", lambda m, p, d: m.expected_data(p), (N, L.nmaindata + L.nauxdata), "expected_rows"),
         ("expected_actualdata", lambda m, p, d: m.expected_actualdata(p), (N, L.nmaindata), "expected_rows"),
@@ -132,6 +153,9 @@ def build_case(rng, backend, precision):
     case["clip_sample"] = case["clip_bin"] = None
     case["overrides"] = False
     case["batch"] = rng.randint(1, 8)
+    if rng.random() < 0.4:
+        case["clipmode"] = rng.choice(["sample0", "bin0", "both0", "sample+", "bin+", "bin+", "both+"])
+        case["clipfactor"] = round(rng.uniform(0.6, 1.3), 3)
     return case
 
 
